@@ -81,6 +81,9 @@ def build(rng, lazy):
     arrays["st.m"] = (sa, ())
     # one sequence with X / Y / Z axis columns (bounds() works on the first sequence of the dataset)
     cols = [("lon", "X"), ("lat", "Y"), ("depth", "Z"), ("t", None)]
+    if rng.random() < 0.3:
+        # an axis carried by two columns (both are bounded), the axis letter in either case
+        cols.append(rng.choice([("lon2", "X"), ("lat2", "y"), ("lon2", "x")]))
     rng.shuffle(cols)
     n = rng.choice([0, 1, 3, 6]) if not lazy else rng.choice([1, 3, 6])
     # half of the datasets have float columns with values a few parts in 10^7 away from the interval ends: a closed interval
@@ -182,6 +185,15 @@ def main():
             return ("spy", args)
         ssf = ServerSideFunctions(inner)
 
+        class SmallBuffer:
+            """the same application with a small streaming block size (environ key pydap.buffer_size), a deployment setting"""
+            def __init__(self, app_, size):
+                self.app_, self.size = app_, size
+
+            def __call__(self, environ, start_response):
+                environ["pydap.buffer_size"] = self.size
+                return self.app_(environ, start_response)
+
         # ---- (1) transparency
         for _ in range(12):
             ce = rng.choice(free)
@@ -229,7 +241,9 @@ def main():
                 beside = rng.choice(["", "g.a,", "loc,"]) if "." not in name else ""
                 url = "/d.dods?%s%s" % (beside, call)
                 try:
-                    res = open_dods_url("http://localhost:8001/d.dods?%s%s" % (beside, call), application=ssf)
+                    # with the default block size, or with blocks smaller than one plane of the array
+                    mean_app = ssf if rng.random() < 0.6 else SmallBuffer(ssf, rng.choice([8, 16, 40, 64]))
+                    res = open_dods_url("http://localhost:8001/d.dods?%s%s" % (beside, call), application=mean_app)
                     leaf = name.split(".")[-1]
                     var = res[leaf] if leaf in res.keys() else res[name.split(".")[0]][leaf]
                     got = np.asarray(var.data[:]) if var.shape else np.asarray(var.data)
@@ -288,7 +302,8 @@ def main():
 
         # ---- (3) bounds: closed intervals incl. min = max, selection position with different projections
         colnames = [c for c, _ in cols]
-        axis_of = {ax: colnames.index(c) for c, ax in cols if ax}
+        # every column that carries an axis attribute (in either letter case) is bounded by that axis' interval
+        axis_cols = [(colnames.index(c), ax.upper()) for c, ax in cols if ax]
         for _ in range(6):
             b = {}
             for ax in "XYZ":
@@ -307,8 +322,8 @@ def main():
             stats["bounds_in_projection_position"] = stats.get("bounds_in_projection_position", 0) + (sep == "," or not proj)
             url = "/d.dods?%s%s%s" % (proj, sep, call)
             r.count(("bounds", i, url, tuple(rows)))
-            want_rows = [r_ for r_ in rows if all(b[ax][0] <= r_[axis_of[ax]] <= b[ax][1] for ax in "XYZ")]
-            axes_in_col_order = sorted((axis_of[ax], b[ax][0], b[ax][1]) for ax in "XYZ")
+            want_rows = [r_ for r_ in rows if all(b[ax][0] <= r_[j] <= b[ax][1] for j, ax in axis_cols)]
+            axes_in_col_order = sorted((j, b[ax][0], b[ax][1]) for j, ax in axis_cols)
             bounds_cases.append("(%s, %s, %s)" % (
                 clist(axes_in_col_order, lambda t: "(%d%%nat, (%d)%%Z, (%d)%%Z)" % (t[0], t[1] * SC, t[2] * SC)),
                 clist(rows, lambda r_: clist(list(r_), lambda v: "(%d)%%Z" % round(v * SC))),
